@@ -53,6 +53,11 @@ pub struct Case {
     /// > 1: the queries are issued by that many concurrent simulated caller tasks sharing the robot
     #[serde(default)]
     pub clients: usize,
+    /// the queries are the items of a parallel iterator: every request is made BY a pool worker
+    /// while other requests wait in the same pool (an application that solves IK for many poses
+    /// in its own `par_iter`); a worker waiting for its inner collision check runs them meanwhile
+    #[serde(default)]
+    pub via_pool: bool,
     /// requests are issued in reverse order (last query first, last entry point first). Set for
     /// the phase after a reconfiguration: its first request is then identical to the last request
     /// made before the robot was re-configured
@@ -187,7 +192,18 @@ fn execute(robot: &Arc<KinematicsWithShape>, case: &Case, cfg: &SimCfg) -> SimOu
     let queries = case.queries.clone();
     let clients = case.clients.max(1);
     let reverse = case.reverse;
+    let via_pool = case.via_pool;
     sim::simulate(cfg, move || {
+        if via_pool {
+            use sim_rayon::prelude::*;
+            let n = queries.len();
+            let slots: std::sync::Mutex<Vec<Option<QObs>>> = std::sync::Mutex::new(vec![None; n]);
+            (0..n).into_par_iter().for_each(|i| {
+                let o = one_query(robot.as_ref(), &queries[i], reverse);
+                slots.lock().unwrap()[i] = Some(o);
+            });
+            return slots.into_inner().unwrap().into_iter().map(|o| o.expect("pool job did not deliver")).collect();
+        }
         if clients <= 1 {
             if reverse {
                 let mut out: Vec<QObs> = queries.iter().rev().map(|q| one_query(robot.as_ref(), q, true)).collect();
@@ -268,7 +284,7 @@ fn judge_with(
             if rc.drop_last_env && !case.cell.env.is_empty() {
                 r.body.collision_environment.pop();
             }
-            let case2 = Case { cell: cell2, queries: case.queries.clone(), cfgs: vec![case.cfgs[0].clone()], reconfigure: None, clients: case.clients, reverse: true };
+            let case2 = Case { cell: cell2, queries: case.queries.clone(), cfgs: vec![case.cfgs[0].clone()], reconfigure: None, clients: case.clients, via_pool: case.via_pool, reverse: true };
             fails.extend(judge_phase(&case2, robot, &mut |_, out| observe(usize::MAX, out), &mut |_, _, _| {}, "/after-reconfiguration"));
         }
     }
@@ -485,6 +501,11 @@ fn simplifications(case: &Case) -> Vec<Case> {
     if case.clients > 1 {
         let mut c = case.clone();
         c.clients = 1;
+        out.push(c);
+    }
+    if case.via_pool {
+        let mut c = case.clone();
+        c.via_pool = false;
         out.push(c);
     }
     if case.queries.len() > 1 {
@@ -715,7 +736,9 @@ pub fn gen_case(seed: u64, shard: u64, run: u64, t: &Tier) -> Case {
         None
     };
     let clients = if knobs.chance(0.3) { knobs.range_usize(2, 3) } else { 1 };
-    Case { cell, queries, cfgs, reconfigure, clients, reverse: false }
+    // requests made by pool workers (a fifth of the single-caller scenarios)
+    let via_pool = clients == 1 && Rng::derive(seed, shard, run, "c11.via-pool").chance(0.2);
+    Case { cell, queries, cfgs, reconfigure, clients, via_pool, reverse: false }
 }
 
 pub fn run(tier_name: &str, seed: u64) -> i32 {
@@ -728,6 +751,9 @@ pub fn run(tier_name: &str, seed: u64) -> i32 {
             let case = gen_case(seed, shard as u64, run as u64, &t);
             tally.bump(&format!("ctor_{:?}", case.cell.ctor).to_lowercase().replace(['(', ')'], "_"), 1);
             let mut robot = Arc::new(case.cell.build_robot());
+            if case.via_pool {
+                tally.bump("scenarios_with_requests_made_by_pool_workers", 1);
+            }
             if case.clients > 1 {
                 tally.bump("scenarios_with_concurrent_callers", 1);
             }
